@@ -821,6 +821,9 @@ func helperReturnOrigin(w *World, fi *FuncInfo, c *ast.CallExpr) (*types.Var, st
 			return false
 		}
 		if ret, ok := n.(*ast.ReturnStmt); ok && len(ret.Results) == 1 {
+			if isNilIdent(t.Pkg.TypesInfo, ret.Results[0]) {
+				return true // an empty snapshot (whether the table was reset on that path is another rule's business)
+			}
 			if o := objOf(t.Pkg.TypesInfo, ret.Results[0]); o != nil {
 				f2, h2 := localOrigin(w, t, o)
 				if f2 == nil || (fv != nil && f2 != fv) {
